@@ -4,5 +4,5 @@ id=$1; secs=${2:-40}
 for v in ${VARIANTS:-a b c}; do
   echo "===== $id $v"
   tools/verify_seed.sh $id $v
-  tools/mutant.sh /tmp/wt/$id-out/patch_$v.diff $id $secs | grep -v "^  shrink" | grep -E "VIOLATION|quick:|HARNESS|^  [a-z]" | cut -c1-260 | head -8
+  tools/mutant.sh /tmp/wt/$id-out${OUTSFX:-}/patch_$v.diff $id $secs | grep -v "^  shrink" | grep -E "VIOLATION|quick:|HARNESS|^  [a-z]" | cut -c1-260 | head -8
 done
